@@ -78,7 +78,13 @@ type LinEnv struct {
 	// Sym names a value as a symbol (return "" to keep evaluating structurally).
 	Sym   func(v ssa.Value) string
 	Subst map[ssa.Value]*Lin // parameter substitution when inlining
+	Ctx   *Ctx               // call-string context: parameters are replaced by the caller's arguments
 	depth int
+}
+
+// inCtx returns a copy of the environment for another context.
+func (e *LinEnv) inCtx(c *Ctx) *LinEnv {
+	return &LinEnv{Sym: e.Sym, Subst: e.Subst, Ctx: c, depth: e.depth}
 }
 
 func (e *LinEnv) Eval(v ssa.Value) *Lin {
@@ -133,25 +139,65 @@ func (e *LinEnv) Eval(v ssa.Value) *Lin {
 			// len of a tracked slice is resolved by the caller through Sym; default symbol
 			return linSym("len(" + valString(x.Call.Args[0]) + ")")
 		}
-		if f := x.Call.StaticCallee(); f != nil && inModule(f) && len(f.Blocks) == 1 {
+		if f := x.Call.StaticCallee(); f != nil && inModule(f) {
 			rets := returnsOf(f)
 			if len(rets) == 1 && len(rets[0].Results) == 1 {
-				sub := &LinEnv{Sym: e.Sym, Subst: map[ssa.Value]*Lin{}, depth: e.depth}
-				for i, pa := range f.Params {
-					if i < len(x.Call.Args) {
-						l := e.Eval(x.Call.Args[i])
-						if l == nil {
-							return nil
-						}
-						sub.Subst[pa] = l
-					}
+				child := &Ctx{Parent: e.Ctx, Site: x, Fn: f}
+				if e.Ctx == nil {
+					child.Parent = &Ctx{Fn: x.Parent()}
 				}
-				return sub.Eval(rets[0].Results[0])
+				return e.inCtx(child).Eval(rets[0].Results[0])
+			}
+		}
+		return nil
+	case *ssa.Extract:
+		if c, ok := x.Tuple.(*ssa.Call); ok {
+			if f := c.Call.StaticCallee(); f != nil && inModule(f) {
+				rets := returnsOf(f)
+				if len(rets) == 1 && x.Index < len(rets[0].Results) {
+					child := &Ctx{Parent: e.Ctx, Site: c, Fn: f}
+					if e.Ctx == nil {
+						child.Parent = &Ctx{Fn: c.Parent()}
+					}
+					return e.inCtx(child).Eval(rets[0].Results[x.Index])
+				}
 			}
 		}
 		return nil
 	case *ssa.Parameter:
+		if e.Ctx != nil && e.Ctx.Parent != nil && e.Ctx.Site != nil && e.Ctx.Fn == x.Parent() {
+			cc := callOf(e.Ctx.Site)
+			idx := paramIndex(x)
+			if !cc.IsInvoke() && idx >= 0 && idx < len(cc.Args) {
+				return e.inCtx(e.Ctx.Parent).Eval(cc.Args[idx])
+			}
+		}
 		return linSym("param:" + x.Name())
+	case *ssa.UnOp:
+		if x.Op == token.MUL {
+			if a, ok := x.X.(*ssa.Alloc); ok {
+				st := allocStores(a)
+				if len(st) == 1 {
+					return e.Eval(st[0])
+				}
+			}
+		}
+		return nil
+	case *ssa.Phi:
+		// a phi whose incoming values all evaluate to the same form
+		var first *Lin
+		for _, ed := range x.Edges {
+			l := e.Eval(ed)
+			if l == nil {
+				return nil
+			}
+			if first == nil {
+				first = l
+			} else if first.String() != l.String() {
+				return nil
+			}
+		}
+		return first
 	}
 	return nil
 }
@@ -169,23 +215,24 @@ type SliceEnv struct {
 	RootLen map[ssa.Value]*Lin // known total length of a root buffer
 	LoopN   int64              // iteration count of the (single) counted loop, 0 if none
 	InLoop  func(in ssa.Instruction) bool
+	LoopNOf func(ph *ssa.Phi) int64
 	at      ssa.Instruction
 }
 
 // Resolve computes the absolute position of slice value v, as seen from instruction `at`.
-func (s *SliceEnv) Resolve(v ssa.Value, at ssa.Instruction) *sliceRef {
+func (s *SliceEnv) Resolve(ctx *Ctx, v ssa.Value, at ssa.Instruction) *sliceRef {
 	s.at = at
-	return s.res(v, 0)
+	return s.res(ctx, v, 0)
 }
 
-func (s *SliceEnv) res(v ssa.Value, d int) *sliceRef {
+func (s *SliceEnv) res(ctx *Ctx, v ssa.Value, d int) *sliceRef {
 	if d > 30 {
 		return nil
 	}
 	v = strip(v)
 	switch x := v.(type) {
 	case *ssa.Slice:
-		base := s.res(x.X, d+1)
+		base := s.res(ctx, x.X, d+1)
 		if base == nil {
 			return nil
 		}
@@ -195,6 +242,7 @@ func (s *SliceEnv) res(v ssa.Value, d int) *sliceRef {
 		_ = lenEnv
 		evalIdx := func(iv ssa.Value) *Lin {
 			env := *s.Lin
+			env.Ctx = ctx
 			prev := env.Sym
 			env.Sym = func(y ssa.Value) string {
 				if c, ok := y.(*ssa.Call); ok {
@@ -250,9 +298,9 @@ func (s *SliceEnv) res(v ssa.Value, d int) *sliceRef {
 		var step *Lin
 		for _, e := range x.Edges {
 			if sl, ok := strip(e).(*ssa.Slice); ok && strip(sl.X) == ssa.Value(x) && sl.High == nil && sl.Low != nil {
-				step = s.Lin.Eval(sl.Low)
+				step = s.Lin.inCtx(ctx).Eval(sl.Low)
 			} else {
-				init = s.res(e, d+1)
+				init = s.res(ctx, e, d+1)
 			}
 		}
 		if init == nil || step == nil {
@@ -265,15 +313,28 @@ func (s *SliceEnv) res(v ssa.Value, d int) *sliceRef {
 		if s.InLoop != nil && s.InLoop(s.at) {
 			return &sliceRef{Root: init.Root, Off: init.Off.add(linSym("i").scale(c), 1), End: init.End}
 		}
-		return &sliceRef{Root: init.Root, Off: init.Off.add(linConst(c*s.LoopN), 1), End: init.End}
-	case *ssa.MakeSlice, *ssa.Parameter, *ssa.Alloc, *ssa.FieldAddr, *ssa.Global:
+		n := s.LoopN
+		if s.LoopNOf != nil {
+			n = s.LoopNOf(x)
+		}
+		return &sliceRef{Root: init.Root, Off: init.Off.add(linConst(c*n), 1), End: init.End}
+	case *ssa.Parameter:
+		if ctx != nil && ctx.Parent != nil && ctx.Site != nil && ctx.Fn == x.Parent() {
+			cc := callOf(ctx.Site)
+			idx := paramIndex(x)
+			if !cc.IsInvoke() && idx >= 0 && idx < len(cc.Args) {
+				return s.res(ctx.Parent, cc.Args[idx], d+1)
+			}
+		}
+		return &sliceRef{Root: v, Off: linConst(0)}
+	case *ssa.MakeSlice, *ssa.Alloc, *ssa.FieldAddr, *ssa.Global:
 		return &sliceRef{Root: v, Off: linConst(0)}
 	case *ssa.UnOp:
 		if x.Op == token.MUL {
 			if a, ok := x.X.(*ssa.Alloc); ok {
 				st := allocStores(a)
 				if len(st) == 1 {
-					return s.res(st[0], d+1)
+					return s.res(ctx, st[0], d+1)
 				}
 			}
 			// a field holding a buffer (segmentIterator.buf)
